@@ -245,6 +245,35 @@ theorem context_routing (cfg : Cfg) (b : Block) (node : Node) (hok : parseTrans 
     cases b.ctx <;> cases cfg.newstyle <;>
       cases (!((parseBlock b.singular).1 ++ (parseBlock pb).1).isEmpty) <;> simp [makeNode, Node.recorded]
 
+/-- **autoescape**: only variable values are escaped — a plain string value is inserted as `escape(value)`, a markup
+    value and an integer as they are, without autoescape everything raw; and the literal text of the block is never
+    escaped (it is template text): a block without variables renders the same with autoescape on and off -/
+theorem autoescape_vars :
+    (∀ t, (Val.str t false).show true = escape t) ∧ (∀ t, (Val.str t true).show true = t) ∧
+    (∀ i, (Val.int i).show true = (Val.int i).show false) ∧ (∀ t s, (Val.str t s).show false = t) ∧
+    (∀ pt σ b, refsOf b = [] → expected pt true σ b = expected pt false σ b) := by
+  refine ⟨fun _ => rfl, fun _ => rfl, fun _ => rfl, fun _ _ => rfl, ?_⟩
+  intro pt σ b hr
+  rw [expected_eq, expected_eq]
+  apply fill_no_refs
+  apply refsS_TS_nil
+  rw [refsS_syms]
+  have h1 : (parseBlock b.singular).1 = [] := by
+    unfold refsOf at hr; exact (List.append_eq_nil_iff.mp hr).1
+  unfold chosen
+  cases hpl : b.plural with
+  | none => simpa using h1
+  | some p =>
+    obtain ⟨pn, pb⟩ := p
+    have h2 : (parseBlock pb).1 = [] := by
+      unfold refsOf at hr; rw [hpl] at hr; exact (List.append_eq_nil_iff.mp hr).2
+    split
+    · split <;> simp_all
+    · simp_all
+    · simp_all
+
+example : escape ['<','a','&','"','>'] = ['&','l','t',';','a','&','a','m','p',';','&','#','3','4',';','&','g','t',';'] := by rfl
+
 /-! ## extraction -/
 
 /-- **extraction is complete**: for every template (node list), every call a gettext callable can receive at render —
